@@ -77,6 +77,24 @@ var putTopics = [][]string{{"a"}, {"b"}, {"a", "b"}}
 // FiniteOps is the operation alphabet of C08.
 var FiniteOps = []string{"Put{a}", "Put{b}", "Put{a,b}", "Put(no topics)", "Put(ID wrong for the mode)", "Replay(oldest buffered ID, {a,b})", "Replay(oldest buffered ID, {a}, first Send fails)", "Put{a} with the empty (but set) ID"}
 
+// stepReplayVerdict judges Replay(oldest buffered ID, {a,b}): everything after the oldest buffered event.
+func stepReplayVerdict(w *probeWriter, rerr error, model []entry, c FiniteCfg, desc func() string) string {
+	var want []string
+	if len(model) > 0 {
+		for _, e := range model[1:] {
+			want = append(want, e.id)
+		}
+	}
+	if strings.Join(w.sends, ",") != strings.Join(want, ",") || rerr != nil {
+		rel := "less than expected"
+		if len(w.sends) > len(want) {
+			rel = "more than expected"
+		}
+		return viol(fmt.Sprintf("replay from the oldest buffered ID, as a step of the history (autoIDs=%v): %s", c.Auto, rel), "%s: Replay(oldest buffered ID, topics=[a b]) sent [%s] (error %v), want [%s] (buffer holds %s)", desc(), strings.Join(w.sends, ","), rerr, strings.Join(want, ","), modelString(model))
+	}
+	return ""
+}
+
 type FiniteCfg struct {
 	N    int
 	Auto bool
@@ -144,7 +162,12 @@ func VisitFinite(c FiniteCfg, hist []uint8, which string, probes *int64) (uint64
 			if len(model) > 0 {
 				sub.LastEventID = sse.ID(model[0].id)
 			}
-			_ = r.Replay(sub)
+			rerr := r.Replay(sub)
+			if op == 5 && which != "C18" {
+				if v := stepReplayVerdict(w, rerr, model, c, desc); v != "" {
+					return 0, true, v
+				}
+			}
 			continue
 		}
 		valid := op <= 2
@@ -229,6 +252,10 @@ func VisitFinite(c FiniteCfg, hist []uint8, which string, probes *int64) (uint64
 		}
 	}
 	stateHash := deep.Hash(r)
+	if usedEmpty {
+		// the harness admits the empty ID once per history: part of what the future can be, so part of the key
+		stateHash ^= 0x5bd1e9955bd1e995
+	}
 
 	// C18: nothing but the last N accepted events is reachable
 	if which != "C08" {
@@ -252,7 +279,20 @@ func VisitFinite(c FiniteCfg, hist []uint8, which string, probes *int64) (uint64
 		return stateHash ^ hashModel(model, uint64(next)), true, ""
 	}
 
-	// C08 probes: Replay(x, T, f) for every presentable ID
+	// C08 probes: first the Replay a history can contain as a step (whatever an earlier one left behind in the
+	// replayer meets the same request again), then Replay(x, T, f) for every presentable ID
+	{
+		*probes++
+		w := &probeWriter{}
+		sub := sse.Subscription{Client: w, Topics: []string{"a", "b"}}
+		if len(model) > 0 {
+			sub.LastEventID = sse.ID(model[0].id)
+		}
+		rerr := r.Replay(sub)
+		if v := stepReplayVerdict(w, rerr, model, c, desc); v != "" {
+			return 0, true, v
+		}
+	}
 	type probeID struct {
 		id    string
 		set   bool
